@@ -9,6 +9,10 @@ package embedded
 //@ func Method.ValidateSendBlock(self, block)
 //@   modifies block.Data
 
+// The plasma price of a method is a constant of the plasma table.
+//@ func Method.GetPlasma(self, plasmaTable)
+//@   modifies nothing
+
 // ReceiveBlock works on the contract's storage only: it must not touch balances, the received set or the inbox cursor
 // (the VM credits the amount before the call and debits every returned descendant send block afterwards). This is the
 // frame every embedded method is held to in property C01.
